@@ -77,6 +77,14 @@ impl<'a, P: ?Sized + PathImpl> PathMutImpl<'a, P> {
 	}
 
 	pub fn push(&mut self, segment: &P::Segment) {
+		if self.follows_authority && self.start > 0 && self.start == self.end {
+			// VALIDITY: The path is empty and follows an authority part.
+			//           It must be made absolute first, otherwise the new
+			//           segment would be appended to the authority.
+			replace(self.buffer, self.end..self.end, b"/");
+			self.end += 1;
+		}
+
 		// Disambiguate if the path is empty and one of the following is true:
 		// - `segment` looks like a scheme and path is a the start.
 		// - `segment` is empty, path is absolute and following an authority.
